@@ -15,8 +15,18 @@ import signal
 from .kernel import canon
 
 
+SHARED = {}       # caller-owned objects that the history reuses across calls (edited in place); per process
+
+
 def dec(x):
     if isinstance(x, dict):
+        if "__shared__" in x:
+            # the caller keeps one dict object and edits it in place between calls; a fresh
+            # process (the oracle worker) naturally starts with a new one
+            d = SHARED.setdefault(x["__shared__"], {})
+            d.clear()
+            d.update(dec(x["value"]))
+            return d
         if "__set__" in x:
             return set(dec(v) for v in x["__set__"])
         if "__tuple__" in x:
